@@ -306,6 +306,43 @@ func tdScenarios(thorough bool) []tdScenario {
 			return ends, exempt, closeSrv, final
 		}})
 	}
+	// (2b) the ending connection's own processor is parked on its own full outgoing ring: the
+	//      client subscribed to a topic it publishes on itself and stopped reading
+	for _, cause := range []string{"keepalive", "cut", "server-close"} {
+		cause := cause
+		out = append(out, tdScenario{name: "self-blocked/" + cause, run: func(t *tdWorld) ([]func(), map[string]bool, bool, func()) {
+			w := t.connect("W", 0, 65535, false)
+			t.subscribe("W", "will/#", 0)
+			c := t.connect("C", 512, 10, true)
+			t.subscribe("C", "own", 0)
+			for i := 0; i < 3; i++ {
+				c.rc.Send(bigPub("own", 8000, byte(i)))
+			}
+			t.settleExcept()
+			w.rc.Take()
+			var ends []func()
+			closeSrv := false
+			switch cause {
+			case "cut":
+				ends = append(ends, func() { c.rc.Cut(); c.ended = true })
+			case "keepalive":
+				ends = append(ends, func() { vsched.Advance(16 * time.Second); c.ended = true })
+			case "server-close":
+				closeSrv = true
+				ends = append(ends, func() { c.ended = true; w.ended = true })
+			}
+			final := func() {
+				if cause == "server-close" {
+					return
+				}
+				nw := len(publishesOn(w.rc.Take(), "will/c"))
+				if nw != 1 {
+					vsched.Failf("the connection (which had stopped reading, its own processor waiting for room in its outgoing ring) ended by %s; its will was published %d times", cause, nw)
+				}
+			}
+			return ends, nil, closeSrv, final
+		}})
+	}
 	// (3) publisher ends while its processor is parked on a third party's full ring;
 	//     it is exempt until that third party ends too
 	for _, order := range []string{"P-then-C", "C-then-P"} {
